@@ -672,9 +672,10 @@ func (vc *FuncVC) evalIndex(env *Env, x *EIndex) *CVal {
 			return &CVal{T: Select(Select(env.st.get(vc.elemComp(at.Elem())), base.T, arraySort(SInt, s)), idx.T, s), Typ: at.Elem()}
 		}
 	case *types.Map:
-		_, vn := vc.mapComps(u)
+		dn, vn := vc.mapComps(u)
 		ks, vs := vc.sortOf(u.Key()), vc.sortOf(u.Elem())
-		return &CVal{T: Select(Select(env.st.get(vn), base.T, arraySort(ks, vs)), idx.T, vs), Typ: u.Elem()}
+		in := And(Not(Eq(base.T, IntLit(0))), Select(Select(env.st.get(dn), base.T, arraySort(ks, SBool)), idx.T, SBool))
+		return &CVal{T: Ite(in, Select(Select(env.st.get(vn), base.T, arraySort(ks, vs)), idx.T, vs), vc.zero(u.Elem())), Typ: u.Elem()}
 	}
 	panic(fmt.Errorf("cannot index %s", base.Typ))
 }
@@ -894,6 +895,13 @@ func (vc *FuncVC) evalCall(env *Env, x *ECall) *CVal {
 			ref = T(app("s_arr", v.T), SInt)
 		}
 		return &CVal{T: And(Not(Eq(ref, IntLit(0))), Not(vc.isAlloc(env.old, ref)))}
+	case "allocated":
+		v := arg(0)
+		ref := v.T
+		if v.T.Sort == SSlice {
+			ref = T(app("s_arr", v.T), SInt)
+		}
+		return &CVal{T: vc.isAlloc(env.st, ref)}
 	case "typeis":
 		v := arg(0)
 		s, ok := x.Args[1].(*EStr)
@@ -912,6 +920,19 @@ func (vc *FuncVC) evalCall(env *Env, x *ECall) *CVal {
 			panic(fmt.Errorf("boxof: struct object"))
 		}
 		return &CVal{T: vc.box(v.T, t)}
+	case "unboxptr":
+		// unboxptr(i, "*pkg.T"): the pointer held by interface value i, typed as *pkg.T
+		s, ok := x.Args[1].(*EStr)
+		if !ok {
+			panic(fmt.Errorf("unboxptr: type name string expected"))
+		}
+		pkg := ""
+		if p := vc.scopePkg(env); p != nil {
+			pkg = p.Path()
+		}
+		t := vc.resolveType(s.V, pkg)
+		_, unbox := vc.boxFuncs(t)
+		return &CVal{T: T(app(unbox, arg(0).T), SInt), Typ: t}
 	case "nonnilptr":
 		// nonnilptr(i): the interface value i does not hold a nil pointer
 		pv := vc.declFun("ptrval", []string{SIface}, SInt)
@@ -1063,10 +1084,20 @@ func (vc *FuncVC) evalQuant(env *Env, x *EQuant) *CVal {
 			var tuple []Term
 			he := *env
 			he.pol = 0
-			for _, e := range h {
-				tuple = append(tuple, vc.eval(&he, e).T)
+			func() {
+				// a hint that cannot be evaluated at this program point is skipped
+				defer func() {
+					if r := recover(); r != nil {
+						tuple = nil
+					}
+				}()
+				for _, e := range h {
+					tuple = append(tuple, vc.eval(&he, e).T)
+				}
+			}()
+			if tuple != nil {
+				cands = append(cands, tuple)
 			}
-			cands = append(cands, tuple)
 		}
 		if len(cands) > 12 {
 			cands = cands[len(cands)-12:]
